@@ -227,6 +227,39 @@ def run(ctx):
                 sample={"dep5_glob": g, "dep5_regex": fp.files_pattern().pattern, "toml_paths": sorted(item.paths), "toml_regex": item._paths_regex.pattern, "verdict": verdict} if dom_name == "nolf" else None,
             )
 
+    # ---- field shapes: multi-line Copyright fields, License fields that carry the licence text
+    FIELD_SHAPES = [
+        ("2019 Acme Inc.\n 2021 Joe <j@x.org>", "MIT"),
+        ("\n 2018 Jane Doe\n 2019 John Doe", "MIT"),
+        ("2020 Jane Doe", "MIT\n Permission is hereby granted\n .\n to everyone"),
+        ("2020 Jane Doe", "MIT OR Apache-2.0\n Either licence, at your option."),
+        ("2020 Jane Doe", "GPL-2.0-or-later WITH Classpath-exception-2.0"),
+        ("2020 Jane Doe\n 2021 Jane Doe", "LicenseRef-custom\n All rights reserved."),
+    ]
+    for fi, (cr, lic) in enumerate(FIELD_SHAPES):
+        t0, n0 = time.time(), q.n
+        para = [(["a/*"], cr, lic)]
+        verdict, detail = "holds", None
+        try:
+            c, toml, text = build(para)
+            fp = list(c.all_files_paragraphs())[0]
+            ld = R.language(fp.files_pattern(), "fullmatch")
+            lt = R.language(toml.annotations[0]._paths_regex, mode)
+            r, w = q.witness(R.inter(D_NOLF, ld, lt))
+            if r != "sat":
+                verdict, detail = "inconclusive", f"no common path: {r}"
+            else:
+                a, b = attribution(para, w)
+                replayed += 1
+                if a != b or not a:
+                    st = ctx.violation(f"fields:{fi}", f"Copyright field {cr!r} / License field {lic!r}: for path {w!r} dep5 says {a}, the converted REUSE.toml says {b}", {"paragraphs": para, "path": w})
+                    verdict = "violated" if st == "violated" else "known"
+                    detail = f"{a} vs {b}"
+        except Exception as e:  # noqa - a valid dep5 must convert and re-read
+            st = ctx.violation(f"fields-crash:{fi}", f"Copyright field {cr!r} / License field {lic!r} cannot be converted/re-read: {e!r}", {"paragraphs": para, "path": "a/x"})
+            verdict = "violated" if st == "violated" else "known"
+        ctx.ob(f"field shapes #{fi}: Copyright {cr!r} / License {lic!r}", "RZ3", verdict, secs=time.time() - t0, detail=detail, queries=q.n - n0)
+
     # ---- composition: two globs in one paragraph, and two paragraphs (last match wins on both sides)
     pool = ["a", "*", "a/*", "*.a", "a*", "a/b", "*a*", "a.a", "\\\\", "a/b*", "**", "a/*.a"]
     if tier == "thorough":
